@@ -13,6 +13,8 @@ import Frrs.Commit
 import Frrs.Filter
 import Frrs.Oracle
 import Frrs.Sanity
+import Frrs.Analyze
+import Frrs.Detect
 namespace Frrs.Ops
 open Frrs Frrs.Wire
 
@@ -261,6 +263,34 @@ def dispatch (op : String) (args : List String) : Option String :=
         replaceRefs := (g "replace" "0").toNat!, remotes := ← decList (g "remotes" "-"), stash := b "stash",
         worktrees := (g "worktrees" "1").toNat! }
       pure (match preflightDecision (← decBool force) true f with | none => "accept" | some e => e.name)
+  -- analysis.rs
+  | "topn", [limit, items] => do
+      -- items: comma list size:oidhex in iteration order
+      let its ← (if items == "-" then some [] else (items.splitOn ",").mapM fun (it : String) =>
+        match it.splitOn ":" with
+        | [a, b] => do pure ((← a.toNat?), (← decBytes b))
+        | _ => none)
+      let r := topN (← limit.toNat?) its
+      pure (if r.isEmpty then "-" else ",".intercalate (r.map fun (sz, oid) => toString sz ++ ":" ++ encBytes oid))
+  | "countrefs", [names] => do
+      let c := countRefs (← decList names)
+      pure (s!"{c.total} {c.heads} {c.tags} {c.remotes} {c.other}")
+  | "largestfiles", [top, blobs] => do
+      -- blobs: ';' list of oid:size:path,path,…  in iteration order
+      let bs ← (if blobs == "-" then some [] else (blobs.splitOn ";").mapM fun (it : String) =>
+        match it.splitOn ":" with
+        | [o, sz, ps] => do pure ((← decBytes o), (← sz.toNat?), (← decList ps))
+        | _ => none)
+      let r := largestFiles (← top.toNat?) bs
+      -- canonical: sizes in report order; and (path,size,versions) sorted by path for the full table
+      let sizes := " ".intercalate (r.map fun f => toString f.size)
+      let tbl := (r.map fun f => (f.path, (s2b (toString f.size ++ "/" ++ toString f.versions)))).foldl (fun acc x => setInsert x acc) []
+      pure ("sizes=" ++ sizes ++ " table=" ++ encPairs tbl)
+  -- detect.rs
+  | "normdetect", [b] => do pure (encOptBytes (normalizeDetected (← decBytes b)))
+  | "looksbinary", [b] => do pure (encBool (looksBinary (← decBytes b)))
+  | "detect", [ms] => do pure (encList (detect (← decList ms)))
+  | "needsescape", [v] => do pure (encBool (needsEscape (← decBytes v)))
   | "import", [stream] => do
       let s := importBytes (← decBytes stream)
       pure (match s.failed with | some w => "failed: " ++ w | none => "ok commits=" ++ toString s.nCommits ++ " refs=" ++ toString (s.refs.filter (·.2.isSome)).length)
